@@ -86,6 +86,31 @@ class Repo:
                         return True
         return False
 
+    def class_table(self):
+        """{class name: (base names, names bound in the class body)} for the classes of the package, read
+        off the source: used to resolve `x.method()` the way Python does (calls.resolve)"""
+        if getattr(self, '_class_table', None) is None:
+            tab = {}
+            for f, tree in self.trees.items():
+                for n in tree.body:
+                    if not isinstance(n, ast.ClassDef):
+                        continue
+                    bases = [b.id if isinstance(b, ast.Name) else (b.attr if isinstance(b, ast.Attribute) else '?')
+                             for b in n.bases]
+                    names = set()
+                    for m in n.body:
+                        if isinstance(m, (ast.FunctionDef, ast.AsyncFunctionDef, ast.ClassDef)):
+                            names.add(m.name)
+                        elif isinstance(m, ast.Assign):
+                            for t in m.targets:
+                                if isinstance(t, ast.Name):
+                                    names.add(t.id)
+                        elif isinstance(m, ast.AnnAssign) and isinstance(m.target, ast.Name):
+                            names.add(m.target.id)
+                    tab[n.name] = (bases, names)
+            self._class_table = tab
+        return self._class_table
+
     def find(self, file, qualname):
         """qualname: 'Class.method', 'Class.method.<locals>.inner' or 'function'"""
         parts = [p for p in qualname.split('.') if p != '<locals>']
